@@ -199,7 +199,13 @@ def check_header(case, stats):
             raise Violation(case, "header line %r (%s): %s a plain comment, comments are %r" % (hdr, pos, "should be" if is_comment else "must not be", r[1]["comments"]))
     if case["reuse"]:
         D0 = DIALECTS[dflt]
-        r2 = gh.parse(D0["feature"][0] + ": g\n", parser=parser, matcher=matcher)
+        k0, t0 = expected_step(dflt, D0["given"][-1] + "x")
+        r2 = gh.parse(D0["feature"][0] + ": g\n " + D0["scenario"][0] + ": s\n  " + D0["given"][-1] + "x\n", parser=parser, matcher=matcher)
+        if r2[0] == "ok":
+            st0 = r2[1]["feature"]["children"][0]["scenario"]["steps"]
+            if len(st0) != 1 or (st0[0]["keyword"], st0[0]["keywordType"]) != (k0, t0):
+                raise Violation(case, "after a parse with header %r the same matcher reports step %r for a %s step line, the language table gives %r" % (
+                    hdr, [(x["keyword"], x["keywordType"]) for x in st0], dflt, (k0, t0)))
         if r2[0] != "ok" or r2[1]["feature"]["language"] != dflt:
             raise Violation(case, "after a parse with header %r the same matcher no longer uses its configured default %r: %r" % (hdr, dflt, r2[1] if r2[0] != "ok" else r2[1]["feature"]["language"]))
 
